@@ -98,6 +98,7 @@ package tls
 //@   let byNodeId = req.NodeId != "" && implements(storage, "nodeenrollment.NodeIdLoader")
 //@   nopanic[C05,C14]
 //@   ensures[C05,C13,C02,C16 failclosed] err != nil ==> ret == nil
+//@   ensures[C14,C02,* bundles] err == nil ==> ret != nil && forall i int :: 0 <= i && i < len(ret.CertificateBundles) ==> ret.CertificateBundles[i] != nil
 //@   ensures[C05,C02,C16 verified] err == nil && !req.SkipVerification ==> len(req.Nonce) != 0 && len(req.NonceSignature) != 0
 //@   ensures[C05,C02,C16 bykeyid] err == nil && !req.SkipVerification && !byNodeId ==>
 //@   |   StHas("nodeinfo", keyId(req.CertificatePublicKeyPkix)) && verifiedBy(StGet("nodeinfo", keyId(req.CertificatePublicKeyPkix)), req)
@@ -107,9 +108,22 @@ package tls
 //@   |   exists id String :: StHas("nodeinfo", id) && StGet("nodeinfo", id).NodeId == req.NodeId && verifiedBy(StGet("nodeinfo", id), req)
 
 //@ func tls.ServerConfig
-//@   trusted -- body not verified yet (certificate parsing, certificate map, GetCertificate closure)
+// (the response is produced by GenerateServerCertificates in the same process: its bundle entries are non-nil)
+//@   requires[bundles] in == nil || (forall i int :: 0 <= i && i < len(in.CertificateBundles) ==> in.CertificateBundles[i] != nil)
+//@   nopanic[C14]
 //@   ensures[* failclosed] err != nil ==> ret == nil
 //@   ensures[* ok] err == nil ==> ret != nil && fresh(ret) && in != nil
+// the configuration is the standard one (gate closure of standardTlsConfig) built from the caller's option list
+//@   call tls.standardTlsConfig assert[C02,C07 passthrough] arg1 == rootPool && fresh(rootPool)
+//@   |   && opts(arg2).WithAlpnProtoPrefix == opts(opt).WithAlpnProtoPrefix && opts(arg2).WithNonce == opts(opt).WithNonce
+//@   |   && bytes(opts(arg2).WithExpectedPublicKey) == bytes(opts(opt).WithExpectedPublicKey) && len(opts(arg2).WithExpectedPublicKey) == len(opts(opt).WithExpectedPublicKey)
+//@   call tls.standardTlsConfig assert[C02,C07 poolfromresponse] in != nil && len(in.CertificateBundles) == 2 && (forall c Int :: poolHas(rootPool, c) ==>
+//@   |   c == certOf(in.CertificateBundles[0].CaCertificateDer) || c == certOf(in.CertificateBundles[1].CaCertificateDer))
+//@   ensures[C02,C07 gate] err == nil ==> closureOf(ret.VerifyConnection, "tls.standardTlsConfig$1")
+//@   |   && captured(ret.VerifyConnection, "tls.standardTlsConfig$1", "opts").WithAlpnProtoPrefix == opts(opt).WithAlpnProtoPrefix
+//@   |   && bytes(captured(ret.VerifyConnection, "tls.standardTlsConfig$1", "opts").WithExpectedPublicKey) == bytes(opts(opt).WithExpectedPublicKey)
+//@   |   && len(captured(ret.VerifyConnection, "tls.standardTlsConfig$1", "opts").WithExpectedPublicKey) == len(opts(opt).WithExpectedPublicKey)
+//@   loop 0 unroll 2
 
 // ---------------------------------------------------------------- standard.go (C07, C02)
 //
